@@ -93,6 +93,29 @@ theorem C06_binding_complete_iff (b : WhenB) (hok : b.OK) (ht : b.total = b.stat
     have := List.filter_eq_self.2 h
     rw [this]; omega
 
+/-- **C06 / C20 (a WhenArgs channel belongs to its caller)**: the channel a caller
+    is handed is that of a binding for exactly the caller's state, arguments and
+    context — never the channel of a binding made for another context or for a
+    larger set of arguments (the reuse rule before fix 71ec5b8, which let a
+    caller be woken by the end of somebody else's context, or never). -/
+theorem C06_args_channel_is_the_callers (s : Subs) (state : Nat) (needsX : Bool) (ctx : Option Nat)
+    (s' : Subs) (id : Nat) (h : Subs.subArgs s state needsX ctx = (s', some id)) :
+    ∃ b ∈ s'.args, b.id = id ∧ b.state = state ∧ b.needsX = needsX ∧ b.ctx = ctx := by
+  unfold Subs.subArgs at h
+  split at h
+  · simp at h
+  · split at h
+    · rename_i b hb
+      simp only [Prod.mk.injEq, Option.some.injEq] at h
+      obtain ⟨rfl, rfl⟩ := h
+      have hm := List.mem_of_find?_eq_some hb
+      have hp := List.find?_some hb
+      simp only [Bool.and_eq_true, beq_iff_eq] at hp
+      exact ⟨b, hm, rfl, hp.1.1, hp.1.2, hp.2⟩
+    · simp only [Prod.mk.injEq, Option.some.injEq] at h
+      obtain ⟨rfl, rfl⟩ := h
+      exact ⟨{ id := s.next, state := state, needsX := needsX, ctx := ctx }, by simp, rfl, rfl, rfl, rfl⟩
+
 /-- C13 (Dispose releases every waiter): after `dispose` every channel still
     registered in an index and every state context is released. -/
 theorem C13_dispose_releases_all (m : Mach) :
